@@ -433,6 +433,7 @@ def design_scenarios(module, cfg_text, tagchar):
     if tlc.tlc_failed(rc, "\n".join(l for l in out.splitlines() if not l.startswith(f'"{tagchar}|'))) or not res:
         raise common.MachineryError(f"scenario generation from {module} failed (rc={rc}): " + out[-1500:])
     gen_, dist = tlc.parse_stats(out)
+    res.sort(key=lambda x: json.dumps(x, sort_keys=True))      # (TLC's workers print in no particular order)
     return res, dist, gen_
 
 
